@@ -987,13 +987,14 @@ where
         let hasher = S::default();
         let map = DashMap::with_capacity_and_hasher(capacity.strings, hasher.clone());
         let strings = DashMap::with_capacity_and_hasher(capacity.strings, hasher);
-        let mut highest = 0;
+        // The next key to hand out, one past the highest key that was deserialized
+        let mut next_key = 0;
         let arena = LockfreeArena::new(capacity.bytes, usize::MAX)
             .expect("failed to allocate memory for interner");
 
         for (string, key) in deser_map {
-            if key.into_usize() > highest {
-                highest = key.into_usize();
+            if key.into_usize() >= next_key {
+                next_key = key.into_usize() + 1;
             }
 
             let allocated = unsafe {
@@ -1009,7 +1010,7 @@ where
         Ok(Self {
             map,
             strings,
-            key: AtomicUsize::new(highest),
+            key: AtomicUsize::new(next_key),
             arena,
         })
     }
